@@ -13,7 +13,7 @@ CONSTANTS
   FIX_CREATE = TRUE
   FIX_READD = TRUE
   FIX_STALE = TRUE
-  FIX_RENAMEDIR = FALSE
+  FIX_RENAMEDIR = TRUE
   RECORD = FALSE
 INVARIANTS TypeOK Bounded WatchesOK
 PROPERTIES Converges ErrConverges Settles ConfigureFresh
